@@ -6,6 +6,7 @@ import socket
 from stix2.equivalence.pattern.compare.comparison import (
     object_path_to_raw_values,
 )
+from stix2.patterns import StringConstant
 
 # Values we can use as wildcards in path patterns
 _ANY_IDX = object()
@@ -107,6 +108,9 @@ def windows_reg_key(comp_expr):
         comp_expr: A _ComparisonExpression object whose type is
             windows-registry-key
     """
+    if not isinstance(comp_expr.rhs, StringConstant):
+        return
+
     if _path_is(comp_expr.lhs, ("key",)) \
             or _path_is(comp_expr.lhs, ("values", _ANY_IDX, "name")):
         comp_expr.rhs.value = comp_expr.rhs.value.lower()
@@ -127,7 +131,8 @@ def ipv4_addr(comp_expr):
     Args:
         comp_expr: A _ComparisonExpression object whose type is ipv4-addr.
     """
-    if _path_is(comp_expr.lhs, ("value",)):
+    if isinstance(comp_expr.rhs, StringConstant) \
+            and _path_is(comp_expr.lhs, ("value",)):
         value = comp_expr.rhs.value
         slash_idx = value.find("/")
         is_cidr = slash_idx >= 0
@@ -188,7 +193,8 @@ def ipv6_addr(comp_expr):
     Args:
         comp_expr: A _ComparisonExpression object whose type is ipv6-addr.
     """
-    if _path_is(comp_expr.lhs, ("value",)):
+    if isinstance(comp_expr.rhs, StringConstant) \
+            and _path_is(comp_expr.lhs, ("value",)):
         value = comp_expr.rhs.value
         slash_idx = value.find("/")
         is_cidr = slash_idx >= 0
